@@ -71,8 +71,14 @@ func judge(class string, key []byte, o *fw.Obs) {
 			if err != nil {
 				return
 			}
+			pubParent := parent.Public()
 			childPriv, err1 = parent.DeriveChild(idx)
-			childPub, err2 = parent.Public().DeriveChild(idx)
+			childPub, err2 = pubParent.DeriveChild(idx)
+			// history: further derivations from the same parent objects must not change the children
+			// that were handed out before (they are inspected only afterwards)
+			_, _ = parent.DeriveChild(idx ^ 1)
+			_, _ = pubParent.DeriveChild(idx ^ 1)
+			_, _ = parent.DeriveChild((idx ^ 2) | 1<<31)
 			if err1 == nil {
 				viaPriv = childPriv.Public()
 			}
